@@ -98,4 +98,59 @@ def proposerByRollappKey (rollapp : Bytes) : Bytes := [2] ++ [sep] ++ rollapp
 /-- `SuccessorByRollappKey` : 0x03 "/" rollapp -/
 def successorByRollappKey (rollapp : Bytes) : Bytes := [3] ++ [sep] ++ rollapp
 
+/-! ### buy-order ids (x/dymns) -/
+
+inductive AssetType | name | alias
+  deriving DecidableEq, Repr
+
+/-- `BuyOrderIdTypeDymNamePrefix` = "10", `BuyOrderIdTypeAliasPrefix` = "20" -/
+def buyOrderIdPrefix : AssetType → Bytes
+  | .name => [49, 48]
+  | .alias => [50, 48]
+
+/-- the decomposition `IsValidBuyOrderId` computes: length ≥ 3, `id[:2]` one of the two type
+    prefixes, `strconv.ParseUint(id[2:], 10, 64)` succeeds with a value > 0.  (The type is what
+    `BuyOrder.Validate` re-checks with `strings.HasPrefix(id, prefix)`.) -/
+def parseBuyOrderId (id : Bytes) : Option (AssetType × Nat) :=
+  if id.length < 3 then none else
+  let ty : Option AssetType :=
+    if id.take 2 = buyOrderIdPrefix .name then some .name
+    else if id.take 2 = buyOrderIdPrefix .alias then some .alias else none
+  match ty with
+  | none => none
+  | some t =>
+    match parseU64 (id.drop 2) with
+    | some n => if 0 < n then some (t, n) else none
+    | none => none
+
+/-- `IsValidBuyOrderId` -/
+def isValidBuyOrderId (id : Bytes) : Bool := (parseBuyOrderId id).isSome
+
+/-- `CreateBuyOrderId(type, i)`: prefix ++ decimal; `none` = the panic on an id that does not validate -/
+def createBuyOrderId (t : AssetType) (n : Nat) : Option Bytes :=
+  let id := buyOrderIdPrefix t ++ decStr n
+  if isValidBuyOrderId id then some id else none
+
+/-! ### IRO denoms and plan keys (x/iro) -/
+
+/-- `IROTokenPrefix` = "IRO/" -/
+def iroTokenPrefix : Bytes := [73, 82, 79, 47]
+
+/-- `IRODenom(rollappID)` -/
+def iroDenom (rollapp : Bytes) : Bytes := iroTokenPrefix ++ rollapp
+
+/-- Go `strings.CutPrefix(s, p)`; `none` = (s, false) -/
+def cutPrefix (s p : Bytes) : Option Bytes :=
+  if isPrefix p s then some (s.drop p.length) else none
+
+/-- `RollappIDFromIRODenom(denom)` -/
+def rollappIDFromIRODenom (denom : Bytes) : Option Bytes := cutPrefix denom iroTokenPrefix
+
+/-- `PlanKey(planId)` : 0x01 "/" planId -/
+def planKey (planId : Bytes) : Bytes := [1] ++ [sep] ++ planId
+/-- `PlansByRollappKey(rollappId)` : 0x02 "/" rollappId -/
+def plansByRollappKey (rollapp : Bytes) : Bytes := [2] ++ [sep] ++ rollapp
+/-- how the keeper keys a plan: `PlanKey(fmt.Sprintf("%d", plan.Id))` -/
+def planKeyById (id : Nat) : Bytes := planKey (decStr id)
+
 end DymVerif.Keys
